@@ -20,7 +20,7 @@ from . import tlc
 from .pool import chunks, pmap
 from .tlaval import seq, to_tla
 
-CFG = ('CONSTANTS\n Part = "%s"\n Designs <- TheDesigns\n Q = 8\n Draws <- TheDraws\n Chols <- TheChols\n Cols <- TheCols\n'
+CFG = ('CONSTANTS\n Part = "%s"\n Designs <- TheDesigns\n Q = 8\n QOut = 5\n Draws <- TheDraws\n Chols <- TheChols\n Cols <- TheCols\n'
        'INIT Init\nNEXT Next\nINVARIANT NearestThm\nINVARIANT ScaleThm\nINVARIANT InverseThm\n')
 CHOLS = [[[2, 0], [0, 2]], [[1, 0], [2, 3]], [[3, 0], [-1, 1]], [[1, 0], [0, 4]]]
 
@@ -296,7 +296,7 @@ def run(ctx):
     ctx.extra.update({"nearest_rows": len(rn), "noise_rows": len(rz), "scale_rows": len(rsx), "design_sets": len(byX),
                       "auxiliary_bundled_dataset_statistics": aux,
                       "nearest_rows_with_ties": sum(1 for X, q, a in rn if sum(1 for x in X if (x[0] - q[0]) ** 2 + (x[1] - q[1]) ** 2 == (X[a - 1][0] - q[0]) ** 2 + (X[a - 1][1] - q[1]) ** 2) > 1)})
-    ctx.rule = ("design sets of 3-5 lattice designs (duplicates allowed) x all 81 query points of the quarter lattice (on/off grid, ties); "
+    ctx.rule = ("design sets of 3-5 lattice designs (duplicates allowed) x all 361 query points of the lattice -5..13 squared (on/off grid, ties, queries up to 5/8 outside the unit design box on every side); "
                 "all draws {-2,0,1,3}^2 x 4 Cholesky factors (2 correlated); all integer columns of length 3-4 over 0..3")
     ctx.sample({"X": rn[5][0], "q": rn[5][1], "nearest": rn[5][2]})
     ctx.sample({"z": rz[7][0], "L": rz[7][1], "noise": rz[7][2]})
